@@ -457,6 +457,48 @@ func (vc *VC) sortSlice(st *State, x Val, c *ssa.CallCommon) {
 			na, sv.Off, sv.Off, sv.Len, old, sv.Off, perm, sv.Off, old, na))
 		vc.heapSet(st, nm, arr2Sort(sorts[i]), Sto(h, sv.Reg, na))
 	}
+	// "sorted N: a, b => P(a, b)": P is what the less closure computes (obligation, for arbitrary positions of the slice
+	// as it is after the call); then what sort.Slice guarantees is assumed: no element is less than one before it.
+	// ASSUMED: sort.Slice orders the slice by its less function (less must be a strict weak order).
+	ord := vc.count("sortslice")
+	var cl *Clause
+	if vc.depth == 0 && vc.Con != nil {
+		for _, c2 := range vc.Con.Of("sorted") {
+			if c2.Index == ord {
+				cl = c2
+			}
+		}
+	}
+	if cl == nil || c == nil || len(c.Args) < 2 {
+		return
+	}
+	fv := vc.get(st, c.Args[1])
+	if fv.K != KFunc {
+		panic(unsupported("sorted clause: the less function of sort.Slice is not a closure literal"))
+	}
+	names2 := strings.Split(cl.Name, ",")
+	if len(names2) != 2 {
+		panic(specErr("%s:%d: sorted N: a, b => less", cl.File, cl.Line))
+	}
+	na, nb := strings.TrimSpace(names2[0]), strings.TrimSpace(names2[1])
+	tInt := types.Typ[types.Int]
+	a, b := vc.fresh("sa", "Int"), vc.fresh("sb", "Int")
+	guard := st.clone()
+	guard.assume(vc, And(Le("0", a), Lt(a, sv.Len), Le("0", b), Lt(b, sv.Len)))
+	r := vc.inline(guard, fv.Fn, fv.Fr, []Val{IntV(a, tInt), IntV(b, tInt)}, types.Typ[types.Bool])
+	pos := vc.curInstr.Pos()
+	env := vc.funcEnvAt(guard, pos)
+	vc.specDepth++
+	p := env.bind(na, IntV(a, tInt)).bind(nb, IntV(b, tInt)).evalBool(cl.Text)
+	vc.specDepth--
+	vc.addObl("search", fmt.Sprintf("sorted-eq#%d", ord), guard, Eq(r.S, p), pos, cl.Tags, "less function of sort.Slice computes "+cl.Text)
+	senv := vc.funcEnvAt(st, pos)
+	senv.vars["sortlen"] = IntV(sv.Len, tInt)
+	vc.specDepth++
+	fact := senv.evalBool(fmt.Sprintf("forall2(%s, %s, 0 <= %s && %s < %s && %s < sortlen ==> !(%s))", na, nb, nb, nb, na, na, cl.Text))
+	vc.specDepth--
+	st.assume(vc, fact)
+	vc.note("sort.Slice is assumed to leave the slice ordered by its less function (a strict weak order)")
 }
 
 // fmtOperands returns the original operands of a variadic fmt call (through the [n]any array SSA builds).
